@@ -149,3 +149,18 @@ SPECS["C03"] = dict(
              params=dict(quick=dict(maxlen=1), thorough=dict(maxlen=2)), witnesses=["readat-ok", "readat-error", "retry-ok"]),
     ],
 )
+
+C11_STUB = "(*git.arvados.org/arvados.git/sdk/go/keepclient.KeepClient).uploadToKeepServer=gosymUpload"
+SPECS["C11"] = dict(
+    level="model_checking",
+    technique="bounded symbolic execution of go/ssa: exhaustive solver-pruned exploration of outcome tables and message-arrival orders",
+    outside="more than 3 writable services; timing (a slow response has no observable effect in the model); the Python client; request bodies",
+    assumptions=["uploadToKeepServer replaced by a harness function that answers from a nondeterministic outcome table per (service, attempt): 200 with 1 or 2 replicas, 403, 408, 500, 503, transport error; its real response mapping is checked separately over an HTTPClient stub",
+                 "msgorder scheduling: every order in which pending uploads report is explored; preemption elsewhere is not"],
+    runs=[
+        dict(name="put", pkg="sdk/go/keepclient", harness=["keepclient/c11_put.go"], entry="GosymH_C11_put", sched="msgorder", stubs=[C11_STUB], replay="engine",
+             params=dict(quick=dict(services=2, maxwant=2, maxretries=1), thorough=dict(services=3, maxwant=3, maxretries=1)), witnesses=["success", "insufficient"]),
+        dict(name="upload-status", pkg="sdk/go/keepclient", harness=["keepclient/c11_put.go"], entry="GosymH_C11_upload_status",
+             witnesses=["ok", "transport-error"]),
+    ],
+)
